@@ -9,7 +9,7 @@ from ..algebra import Extractor, Rat, Unsupported
 from ..core import Ctx
 from ..model import dotted, norm, walk_no_nested
 from . import nbk
-from .common import assigned_value, prog
+from .common import assigned_value, expand_locals, prog
 from .kernels import concrete_dissimilarities, extract_d, extract_d_mat
 
 TIME_ATTRS = {"start", "end", "duration", "bound_inf", "bound_sup", "bounds", "minTime", "maxTime"}
@@ -84,12 +84,32 @@ def run(ctx: Ctx):
     nbk.check_pair_kernel(ctx, {"empty-cost": "R-C09-2", "normalisation": "R-C09-2", "pair-domain": "R-C09-4"})
     nbk.check_candidates(ctx, {"threshold": "R-C09-2", "matrix-cover": "R-C09-2", "c2n": "R-C09-2", "cost-domain": "R-C09-4", "matrix-domain": "R-C09-4"})
     w = ctx.fn("Continuum.get_first_window", "R-C09-2")
-    tests = [i for i in ast.walk(w.node) if isinstance(i, ast.If) and "delta_empty" in norm(i.test)]
-    okw = len(tests) == 1 and isinstance(tests[0].test, ast.Compare) and isinstance(tests[0].test.left, ast.Call) and \
-        norm(tests[0].test.left.func) == f"{w.params[1]}.d" and len(tests[0].test.left.args) == 2 and isinstance(tests[0].test.ops[0], (ast.Gt, ast.GtE)) and \
-        norm(tests[0].test.comparators[0]) in (f"{w.params[1]}.delta_empty * {w.self_name}.num_annotators", f"{w.self_name}.num_annotators * {w.params[1]}.delta_empty")
-    ctx.check(okw, "R-C09-2", w, tests[0] if tests else None, "fast-window reach test compares a dissimilarity (degree 1) with n * delta_empty (degree 1): scale-free",
-              bad_detail="the reach test of get_first_window does not scale with delta_empty", key="reach-test")
+    dpar = w.params[1]
+    # the test that compares dissimilarity.d(...) with a threshold; the threshold is read through single-definition locals
+    tests = [i for i in ast.walk(w.node) if isinstance(i, ast.If) and isinstance(i.test, ast.Compare) and len(i.test.ops) == 1 and
+             any(isinstance(x, ast.Call) and norm(x.func) == f"{dpar}.d" for x in (expand_locals(w.node, i.test.left), expand_locals(w.node, i.test.comparators[0])))]
+    if len(tests) != 1:
+        ctx.undecided("R-C09-2", w, None, f"expected one reach test on {dpar}.d(...) in get_first_window, found {len(tests)} (not a verdict)", key="reach-test")
+    else:
+        t = tests[0].test
+        l, r = expand_locals(w.node, t.left), expand_locals(w.node, t.comparators[0])
+        thr = r if (isinstance(l, ast.Call) and norm(l.func) == f"{dpar}.d") else l
+
+        def factors(e):
+            if isinstance(e, ast.BinOp) and isinstance(e.op, ast.Mult):
+                return factors(e.left) + factors(e.right)
+            return [e]
+        fs = factors(thr)
+        n_delta = sum(1 for x in fs if norm(x) == f"{dpar}.delta_empty")
+        others_clean = all(dpar not in {y.id for y in ast.walk(x) if isinstance(y, ast.Name)} and "delta" not in norm(x)
+                           for x in fs if norm(x) != f"{dpar}.delta_empty")
+        simple = all(isinstance(x, (ast.Name, ast.Attribute, ast.Constant)) or (isinstance(x, ast.Call) and norm(x.func) == "len") for x in fs)
+        if not simple or not others_clean:
+            ctx.undecided("R-C09-2", w, tests[0], f"threshold `{norm(thr)}` of the reach test is not a product of plain factors (not a verdict)", key="reach-test")
+        else:
+            ctx.check(n_delta == 1, "R-C09-2", w, tests[0], "fast-window reach test compares a dissimilarity (degree 1) with n * delta_empty (degree 1): scale-free",
+                      bad_detail=f"the reach test of get_first_window compares a dissimilarity with `{norm(thr)}` (degree {n_delta} in delta_empty): "
+                                 f"it does not scale with delta_empty", key="reach-test")
     # ---------------- R-C09-3 who reads times
     roots = ["Continuum.get_best_alignment", "Continuum.get_best_soft_alignment", "Alignment.compute_disorder", "SoftAlignment.compute_disorder"]
     reach = p.reachable(roots)
